@@ -17,7 +17,7 @@
    The check tests these premises on every logged call of the real codecs.
    Fuel exhaustion (EHang / FileErr true) is the model of a hang; every theorem
    states that it does not occur. *)
-From PP Require Import Compress.CompressDefs Compress.CompressProofs.
+From PP Require Import Compress.CompressDefs Compress.CompressProofs Compress.ToyCodec.
 Local Open Scope N_scope.
 
 (* Reading any concatenation of gzip / bzip2 / xz members (mixed codecs,
@@ -141,3 +141,40 @@ Theorem C15_detect_magic_exact :
   forall h k, detect_magic h = Some k <-> starts_with (magic_of k) h = true.
 Proof. intros h k. split; [apply detect_magic_sound|apply detect_magic_of]. Qed.
 Print Assumptions C15_detect_magic_exact.
+
+(* ---- non-vacuity.  The codec contract premises are satisfiable: Compress/ToyCodec.v
+   defines a byte-at-a-time toy codec (magic, then [1; b] per payload byte, then [0]),
+   proves dcall_contract, ecall_run_contract, ecall_finish_contract, the init/reset and
+   magic premises for it, and instantiates the theorems above into closed statements. *)
+Theorem C15_contract_satisfiable_write_read_roundtrip :
+  forall k ops, k <> KXz ->
+  exists f0 file,
+    (forall fuel, (f0 <= fuel)%nat -> write_session unit tenc tenew tereset tecall fuel k tt ops = FileOk file) /\
+    forall (f : frags) (amt : nat -> N) (n fuel : nat),
+      fbytes f = file -> (forall j, 0 < amt j) ->
+      (length (write_plain ops) < n)%nat -> (2 * length file < fuel)%nat ->
+      exists sizes, read_file unit tdec tdnew tdcall n fuel f tt amt = AOk (write_plain ops) sizes.
+Proof. exact toy_write_read_roundtrip. Qed.
+Print Assumptions C15_contract_satisfiable_write_read_roundtrip.
+
+Theorem C15_contract_satisfiable_truncated :
+  forall k p (cut : nat) (f : frags) amt n fuel,
+    let m := magic_of k ++ enc p ++ [0%Z] in
+    (length (magic_of k) <= cut < length m)%nat ->
+    fbytes f = firstn cut m -> (forall j, 0 < amt j) ->
+    (length p < n)%nat -> (2 * cut < fuel)%nat ->
+    exists e d z, read_file unit tdec tdnew tdcall n fuel f tt amt = AErr e d z /\ e <> EHang /\ exists rest, p = d ++ rest.
+Proof. exact toy_truncated_is_error. Qed.
+Print Assumptions C15_contract_satisfiable_truncated.
+
+(* the driver model runs inside Coq: write "hi", flush, write "!", destroy; the file
+   has two members; read back in 1-byte fragments with 1-byte requests; cut it: error *)
+Example C15_nonvacuous_model_runs :
+  let file := [31; 139; 1; 104; 1; 105; 0; 31; 139; 1; 33; 0]%Z in
+  write_session unit tenc tenew tereset tecall 100 KGz tt [OpWrite [104; 105]%Z; OpFlush; OpWrite [33]%Z] = FileOk file /\
+  write_session unit tenc tenew tereset tecall 100 KBz tt [] = FileOk [66; 90; 104; 0]%Z /\
+  read_file unit tdec tdnew tdcall 10 100 (map (fun b => [b]) file) tt (fun _ => 1) = AOk [104; 105; 33]%Z [1; 1; 1; 0] /\
+  read_file unit tdec tdnew tdcall 10 100 [firstn 9 file] tt (fun _ => 4096) = AErr EGz [104; 105]%Z [1; 1] /\
+  read_file unit tdec tdnew tdcall 10 100 [[104; 105; 33]%Z] tt (fun _ => 2) = AOk [104; 105; 33]%Z [2; 1; 0] /\
+  gz_compress unit tenc tenew tecall 100 tt [7; 8]%Z = FileOk [31; 139; 1; 7; 1; 8; 0]%Z.
+Proof. vm_compute. repeat split. Qed.
